@@ -21,6 +21,7 @@ type c03Case struct {
 	Digits  int    `json:"digits"`
 	Algo    int    `json:"algo"`
 	Nil     bool   `json:"nil_param"`
+	AppDef  int    `json:"application_assigned_defaults,omitempty"` // k > 0: the exported defaults hold variant k while the call runs
 }
 
 func hotpWindow(key []byte, c uint64, s uint64, d, a int) []string {
@@ -38,7 +39,20 @@ func hotpWindow(key []byte, c uint64, s uint64, d, a int) []string {
 	return w
 }
 
+// c03Defaults: (HOTP default, TOTP default) pairs an application may have assigned; a nil Param follows ITS default.
+var c03Defaults = [][2]otp.Param{
+	{{Digits: 8, Algorithm: otp.SHA256, Skew: 1}, {Digits: 7, Algorithm: otp.SHA512, Period: 60, Skew: 3}},
+	{{Digits: 10, Algorithm: otp.SHA512, Skew: 0}, {Digits: 6, Algorithm: otp.SHA1, Period: 30, Skew: 10}},
+	{{Digits: 6, Algorithm: otp.SHA1, Skew: 10}, {Digits: 9, Algorithm: otp.SHA256, Period: 1, Skew: 0}},
+}
+
 func callValidateHOTP(c c03Case) (ok bool, err error, panicked string) {
+	if c.AppDef > 0 {
+		sh, st := *otp.DefaultHOTPParam, *otp.DefaultTOTPParam
+		v := c03Defaults[(c.AppDef-1)%len(c03Defaults)]
+		*otp.DefaultHOTPParam, *otp.DefaultTOTPParam = v[0], v[1]
+		defer func() { *otp.DefaultHOTPParam, *otp.DefaultTOTPParam = sh, st }()
+	}
 	panicked = try(func() {
 		if c.Nil {
 			ok, err = otp.ValidateHOTP(c.Secret, c.Code, c.Counter, nil)
@@ -74,6 +88,10 @@ func hotpValidate(c c03Case, key []byte, window []string, pairMode bool) (obs, b
 	d, a, s := c.Digits, c.Algo, c.Skew
 	if c.Nil {
 		d, a, s = 6, 0, 2
+		if c.AppDef > 0 {
+			v := c03Defaults[(c.AppDef-1)%len(c03Defaults)][0]
+			d, a, s = int(v.Digits), int(v.Algorithm), uint64(v.Skew)
+		}
 	}
 	if pairMode {
 		if ps := pairShape(ok, err); ps != "" {
@@ -187,15 +205,26 @@ func c03(r *ev.Run, pairMode bool) {
 		var cs []c03Case
 		for _, ctr := range []uint64{5, 1 << 32} {
 			for dist := int64(-3); dist <= 3; dist++ {
-				cs = append(cs, c03Case{sp, ref.HOTP(k, uint64(int64(ctr)+dist), 6, 0), ctr, 2, 6, 0, false})
+				cs = append(cs, c03Case{sp, ref.HOTP(k, uint64(int64(ctr)+dist), 6, 0), ctr, 2, 6, 0, false, 0})
 			}
-			cs = append(cs, c03Case{sp, ref.HOTP(k, ctr, 8, 2), ctr, 0, 8, 2, false}, c03Case{sp, "000000", ctr, 10, 6, 0, false}, c03Case{Secret: sp, Code: ref.HOTP(k, ctr+2, 6, 0), Counter: ctr, Nil: true})
+			cs = append(cs, c03Case{sp, ref.HOTP(k, ctr, 8, 2), ctr, 0, 8, 2, false, 0}, c03Case{sp, "000000", ctr, 10, 6, 0, false, 0}, c03Case{Secret: sp, Code: ref.HOTP(k, ctr+2, 6, 0), Counter: ctr, Nil: true})
+		}
+		// application-assigned defaults: ValidateHOTP(nil) uses the HOTP default's digits, hash and window
+		for v := 1; v <= len(c03Defaults); v++ {
+			dv := c03Defaults[v-1][0]
+			for dist := int64(-11); dist <= 11; dist++ {
+				if dist < -2 && dist > -10 || dist > 2 && dist < 10 {
+					continue
+				}
+				cs = append(cs, c03Case{Secret: sp, Code: ref.HOTP(k, uint64(40+dist), int(dv.Digits), int(dv.Algorithm)), Counter: 40, Nil: true, AppDef: v})
+			}
+			cs = append(cs, c03Case{Secret: sp, Code: ref.HOTP(k, 41, 6, 0), Counter: 40, Skew: 1, Digits: 6, Algo: 0, AppDef: v})
 		}
 		afterWarmups(r, "hotp-validate-after-other-operations", cs, func(c c03Case) (string, string) { return hotpValidate(c, k, nil, pairMode) })
 	}
 	volume(r, "hotp-validate-volume", 1100, func(k int) c03Case {
 		key := []byte(fmt.Sprintf("volume-key-%04d-0123456789abcdefghij", k/2))[:10+(k/2*7)%27]
-		return c03Case{ref.B32Encode(key), ref.HOTP(key, uint64(k)+uint64(k%5), 6, k%3), uint64(k), uint64(k % 4), 6, k % 3, false}
+		return c03Case{ref.B32Encode(key), ref.HOTP(key, uint64(k)+uint64(k%5), 6, k%3), uint64(k), uint64(k % 4), 6, k % 3, false, 0}
 	}, func(c c03Case) (string, string) {
 		_, key := ref.B32Classify(c.Secret)
 		return hotpValidate(c, key, nil, pairMode)
@@ -267,7 +296,7 @@ func c03(r *ev.Run, pairMode bool) {
 					window := hotpWindow(key, ctr, sk, 6, a)
 					subs := append([]string{ref.HOTP(key, ctr-sk-1, 6, a), ref.HOTP(key, ctr+sk+1, 6, a)}, window...)
 					for _, code := range subs {
-						c := c03Case{sec, code, ctr, sk, 6, a, false}
+						c := c03Case{sec, code, ctr, sk, 6, a, false, 0}
 						obs, bad := hotpValidate(c, key, window, pairMode)
 						local++
 						if bad != "" {
@@ -305,7 +334,7 @@ func c03(r *ev.Run, pairMode bool) {
 		}
 		var local int64
 		for _, code := range submissions(around, window, g.d) {
-			c := c03Case{g.sec, code, g.c, g.s, g.d, g.a, false}
+			c := c03Case{g.sec, code, g.c, g.s, g.d, g.a, false, 0}
 			obs, bad := hotpValidate(c, g.key, window, pairMode)
 			local++
 			if bad != "" {
@@ -356,7 +385,7 @@ func c03(r *ev.Run, pairMode bool) {
 		acc := 0
 		for v := 0; v < n; v++ {
 			code := fmt.Sprintf("%0*d", g.d, v)
-			c := c03Case{g.sec, code, g.c, g.s, g.d, g.a, false}
+			c := c03Case{g.sec, code, g.c, g.s, g.d, g.a, false, 0}
 			obs, bad := hotpValidate(c, g.key, window, pairMode)
 			local++
 			if bad != "" {
@@ -376,7 +405,7 @@ func c03(r *ev.Run, pairMode bool) {
 	{
 		k0, k1 := keys[1], keys[0]
 		s0, s1 := spellings(k0)[0], spellings(k1)[0]
-		base := c03Case{s0, ref.HOTP(k0, 7, 6, 0), 7, 1, 6, 0, false}
+		base := c03Case{s0, ref.HOTP(k0, 7, 6, 0), 7, 1, 6, 0, false, 0}
 		fam := []struct {
 			c   c03Case
 			key []byte
@@ -428,7 +457,7 @@ func c03(r *ev.Run, pairMode bool) {
 	for _, s := range []uint64{11, 12, 255, 1 << 32, 1 << 63, ^uint64(0)} {
 		for _, c := range []uint64{0, 5, 1 << 63} {
 			for _, code := range []string{"000000", ref.HOTP(keys[1], c, 6, 0), ""} {
-				cs := c03Case{spellings(keys[1])[0], code, c, s, 6, 0, false}
+				cs := c03Case{spellings(keys[1])[0], code, c, s, 6, 0, false, 0}
 				n := countDerivations(func() { callValidateHOTP(cs) })
 				wn++
 				if n != 0 {
@@ -448,7 +477,7 @@ func c03(r *ev.Run, pairMode bool) {
 	}
 	for s := uint64(0); s <= 10; s++ {
 		for _, d := range []int{1, 6, 10} {
-			cs := c03Case{spellings(keys[1])[0], ref.Format(0, d)[:d-1] + "x", 20, s, d, 1, false}
+			cs := c03Case{spellings(keys[1])[0], ref.Format(0, d)[:d-1] + "x", 20, s, d, 1, false, 0}
 			n := countDerivations(func() { callValidateHOTP(cs) })
 			wn++
 			if n > int64(2*s+1) {
@@ -465,7 +494,7 @@ func c03(r *ev.Run, pairMode bool) {
 			x := c + uint64(dist)
 			for _, d := range []int{6, 8} {
 				for a := 0; a < 2; a++ {
-					cs := c03Case{spellings(keys[1])[0], ref.HOTP(keys[1], x, d, a), c, 0, 0, 0, true}
+					cs := c03Case{spellings(keys[1])[0], ref.HOTP(keys[1], x, d, a), c, 0, 0, 0, true, 0}
 					obs, bad := hotpValidate(cs, keys[1], nil, pairMode)
 					wn++
 					if bad != "" {
@@ -477,8 +506,8 @@ func c03(r *ev.Run, pairMode bool) {
 	}
 	r.Eval(wn)
 	if !pairMode {
-		r.Sample(map[string]any{"case": c03Case{spellings(keys[1])[0], ref.HOTP(keys[1], 1<<63-1, 6, 0), 1 << 63, 2, 6, 0, false}, "want": true, "note": "neighbour below a counter >= 2^63"})
-		r.Sample(map[string]any{"case": c03Case{spellings(keys[1])[0], ref.HOTP(keys[1], 3, 6, 0), 0, 2, 6, 0, false}, "want": inSet(ref.HOTP(keys[1], 3, 6, 0), hotpWindow(keys[1], 0, 2, 6, 0)), "note": "just outside the window"})
+		r.Sample(map[string]any{"case": c03Case{spellings(keys[1])[0], ref.HOTP(keys[1], 1<<63-1, 6, 0), 1 << 63, 2, 6, 0, false, 0}, "want": true, "note": "neighbour below a counter >= 2^63"})
+		r.Sample(map[string]any{"case": c03Case{spellings(keys[1])[0], ref.HOTP(keys[1], 3, 6, 0), 0, 2, 6, 0, false, 0}, "want": inSet(ref.HOTP(keys[1], 3, 6, 0), hotpWindow(keys[1], 0, 2, 6, 0)), "note": "just outside the window"})
 		r.Set("alphabet", map[string]any{"skew": "0..10 and refused 11,12,255,2^32,2^63,2^64-1", "counters": hotpValCounters, "digits": "1..10", "hash": "0..2", "submitted": "codes at distance -(s+3)..+(s+3); single-digit edits of first/middle/last window code (all 9 alternatives at first and last position); drop/extend/whitespace/NUL/full-width/Arabic-Indic/empty/doubled variants; complete code space for digits <= 4 (thorough: <= 6)"})
 		r.Rule("every (secret, skew, counter, digits, hash) configuration x every submitted string through ValidateHOTP; oracle = exact membership of the string in the reference window set {HOTP(c') : max(0,c-s)<=c'<=c+s}; refused windows must return (false, error) with zero derivations (counted at the HMAC constructor seam); distinct = distinct (config, string, verdict) tuples at 6 digits plus acceptance counts of complete code spaces")
 		r.Assume("crypto/hmac; window arithmetic restricted to c+s <= 2^64-1 as the property states")
